@@ -1,0 +1,7 @@
+//go:build !verif
+
+package clientpb
+
+// verifYield is a no-op in normal builds. With the verif build tag it lets a deterministic
+// simulator park the calling goroutine at the named point (see verif_on.go).
+func verifYield(string) {}
